@@ -275,7 +275,8 @@ func (ir *ifdReader) ParseSubSecTime(t Tag) uint16 {
 }
 
 func (ir *ifdReader) parseLensInfo(t Tag) LensInfo {
-	if !t.IsEmbedded() {
+	// four rationals; the same 32 bytes typed as shorts or bytes are not pairs of 32-bit words
+	if !t.IsEmbedded() && (t.IsType(tag.TypeRational) || t.IsType(tag.TypeSignedRational)) {
 		buf, err := ir.readTagValue()
 		if err != nil || len(buf) < 32 {
 			return LensInfo{}
